@@ -193,6 +193,54 @@ def run(pid, tier, profile="mixed", own=None, nops=None, streams_per_cfg=None, e
     return C.finish(res, "proof", "cd lean && lake build Cuckoo.Props.%s && #print axioms audit; K2 differential (check/k2check.py)" % pid)
 
 
+def locked_phase(pid, kinds=("ltmoveassign", "probe", "lock", "unlock")):
+    """a phase for K3-backed checks (C04, C06): sequential streams with locked sections, including move assignment of a
+    locked_table onto an active one, followed by lock probes of every array; judged by the reference oracle (failures
+    attributed to `pid`) and by the model on the requests in `kinds`"""
+    def phase(res, tier):
+        rng = random.Random(C.seed() * 524287 + sum(ord(x) for x in pid))
+        cfgs = [k2.Cfg(S, M, k, hm) for (S, M, k) in ((1, 2, 0), (2, 4, 1), (4, 8, 0), (4, 2, 2)) for hm in ((0, 2, 4) if tier == "quick" else (0, 1, 2, 3, 4, 5))]
+        bins = k2.build_all(cfgs)
+        n = nbad = nops = 0
+        for cfg in cfgs:
+            ok, exe, log = bins[cfg.key()]
+            if not ok:
+                res.add_broken("K2 harness %s does not compile against /repo" % cfg.key(), log)
+                continue
+            g = k2.Gen(random.Random(rng.getrandbits(48)), cfg, "locked")
+            lines = g.run(500 if tier == "quick" else 4000, allow_mlf0=(cfg.hashmode in (0, 4)), universe=rng.choice([12, 48, 200]))
+            cpp, lean, info = k2.run_pair(exe, lines)
+            n += 1
+            nops += len(lines)
+            bad = None
+            for i in range(min(len(cpp), len(lean), len(lines))):
+                if cpp[i] != lean[i] and lines[i].split()[1] in kinds:
+                    bad = {"property": pid, "op_index": i, "op": lines[i], "implementation_answer": cpp[i][:300], "why": "model answers `%s`" % lean[i][:200]}
+                    break
+            orc = k2.RefMap(cfg)
+            for i, (ln, got) in enumerate(zip(lines, cpp)):
+                try:
+                    orc.step(i, ln, got)
+                except (ValueError, IndexError, KeyError):
+                    break
+            mine = [f for f in orc.fails if f["property"] == pid]
+            if info["cpp_rc"] == -999 and not mine and not bad:
+                mine = [{"property": pid, "op_index": len(cpp), "op": lines[len(cpp)] if len(cpp) < len(lines) else "<end>",
+                         "implementation_answer": "<no answer: the request hangs>", "why": "a request on the table does not return (lock still held?)"}]
+            if mine or bad:
+                nbad += 1
+                f = dict((mine or [bad])[0])
+                f.update({"config": cfg.name(), "cfg_line": cfg.line(), "prefix": lines[:f["op_index"] + 1]})
+                if len(res.failing) < 3:
+                    res.add_failing(f)
+        if nbad:
+            res.add_broken("K2 locked-section streams: lock ownership after lock / unlock / move assignment of a locked_table violates %s "
+                           "(%d of %d streams)" % (pid, nbad, n))
+        res.cov["k2_locked_streams"] = n
+        res.cov["k2_locked_requests"] = nops
+    return phase
+
+
 def replay(pid, path):
     d = json.load(open(path))
     print(json.dumps({k: d[k] for k in d if k != "failing_inputs"}, indent=1)[:3000])
